@@ -281,6 +281,12 @@ struct C04 : Property
 						g_alloc.fail_at.clear();
 						if (t)
 							LIBV(json_tokener_free(t));
+						else
+						{
+							// what a caller does with the result of a failed constructor: both calls accept NULL
+							LIBV(json_tokener_reset(nullptr));
+							LIBV(json_tokener_free(nullptr));
+						}
 						if (g_alloc.live.size() != live_before)
 							ctx.fail("C04:leak@" + g_alloc.first_live_site(), "json_tokener_new_ex(%d) with allocation #%ld failing %s and leaves %zu allocation(s) behind", s.depth, k,
 							         t ? "succeeded" : "returned NULL", g_alloc.live.size() - live_before);
